@@ -15,7 +15,8 @@ use super::{
 };
 use crate::{
     interp::{Interpreter, JmpWhen},
-    BindContext, ByteCode, CelError, CelResult, CelValue, CelValueDyn, Program, StringTokenizer,
+    program::ProgramDetails, BindContext, ByteCode, CelError, CelResult, CelValue, CelValueDyn,
+    Program, StringTokenizer,
 };
 
 use crate::compile;
@@ -992,11 +993,14 @@ impl<'l> CelCompiler<'l> {
                         // Arguments are evaluated backwards so they get popped off the stack in order
                         for (a, ast) in args.into_iter().rev() {
                             args_ast.push(ast);
-                            args_node =
-                                args_node.append_result(CompiledProg::with_code_points(vec![
-                                    ByteCode::Push(a.into_unresolved_bytecode().resolve().into())
-                                        .into(),
-                                ]))
+                            // keep the identifiers the argument reads
+                            let arg_details = a.details().clone();
+                            let mut arg_node = CompiledProg::with_code_points(vec![
+                                ByteCode::Push(a.into_unresolved_bytecode().resolve().into())
+                                    .into(),
+                            ]);
+                            arg_node.details.union_from(arg_details);
+                            args_node = args_node.append_result(arg_node)
                         }
 
                         member_prime_node = args_node
@@ -1290,6 +1294,7 @@ impl<'l> CelCompiler<'l> {
                 loc,
             }) => {
                 let mut bytecode = Vec::<PreResolvedCodePoint>::new();
+                let mut details = ProgramDetails::new();
 
                 for segment in segments.iter() {
                     match segment {
@@ -1301,6 +1306,7 @@ impl<'l> CelCompiler<'l> {
                             let mut comp = CelCompiler::with_tokenizer(&mut tok);
 
                             let (e, _) = comp.parse_expression()?;
+                            details.union_from(e.details().clone());
 
                             bytecode.push(
                                 ByteCode::Push(CelValue::ByteCode(
@@ -1318,7 +1324,10 @@ impl<'l> CelCompiler<'l> {
                 bytecode.push(ByteCode::FmtString(segments.len() as u32).into());
 
                 Ok((
-                    CompiledProg::with_code_points(bytecode),
+                    CompiledProg::new(
+                        NodeValue::Bytecode(bytecode.into_iter().collect()),
+                        details,
+                    ),
                     AstNode::new(
                         Primary::Literal(LiteralsAndKeywords::FStringList(segments.clone())),
                         loc,
@@ -1417,12 +1426,14 @@ impl<'l> CelCompiler<'l> {
     fn check_for_const(&self, member_prime_node: CompiledProg, args_len: usize) -> CompiledProg {
         let mut i = Interpreter::empty();
         i.add_bindings(&self.bindings);
+        // the identifiers read by the callee, receiver and arguments stay reported
+        let details = member_prime_node.details().clone();
         let bc = member_prime_node.into_unresolved_bytecode().resolve();
 
         // A call without arguments has no constant input to fold and may read
         // the clock (now(), timestamp()); it is evaluated at every execution.
         if args_len == 0 {
-            return CompiledProg::with_bytecode(bc);
+            return CompiledProg::new(NodeValue::Bytecode(bc.into()), details);
         }
 
         let r = i.run_raw(&bc, true);
@@ -1430,8 +1441,8 @@ impl<'l> CelCompiler<'l> {
         match r {
             // An error nested in the value comes from a name that is not bound
             // at compile time (e.g. `[x].filter(v, true)`): not a constant.
-            Ok(v) if !Self::contains_err(&v) => CompiledProg::with_const(v),
-            _ => CompiledProg::with_bytecode(bc),
+            Ok(v) if !Self::contains_err(&v) => CompiledProg::new(NodeValue::ConstExpr(v), details),
+            _ => CompiledProg::new(NodeValue::Bytecode(bc.into()), details),
         }
     }
 
